@@ -282,14 +282,14 @@ impl Serialize for &[u16] {
 
 impl Serialize for WriteMultiple<bool> {
     fn serialize(&self, cursor: &mut WriteCursor) -> Result<(), RequestError> {
-        self.range.serialize(cursor)?;
+        self.range.of_write_coils()?.serialize(cursor)?;
         self.values.as_slice().serialize(cursor)
     }
 }
 
 impl Serialize for WriteMultiple<u16> {
     fn serialize(&self, cursor: &mut WriteCursor) -> Result<(), RequestError> {
-        self.range.serialize(cursor)?;
+        self.range.of_write_registers()?.serialize(cursor)?;
         self.values.as_slice().serialize(cursor)
     }
 }
